@@ -235,11 +235,14 @@ Section CHAIN.
       + destruct (method_ok (cr_route x) m); [inversion H; left; reflexivity | right; eapply IH; eauto].
       + right; eapply IH; eauto.
   Qed.
-  Lemma compile_routes : forall ops, map cr_route (compile ops) = reachable_routes ops.
-  Proof. intros ops. unfold compile. rewrite map_map. cbn. apply map_id. Qed.
-  Lemma find_route_in : forall ops m p ps seen rt,
-    find_route (compile ops) m p ps seen = FRoute rt -> In rt (reachable_routes ops).
-  Proof. intros ops m p ps seen rt H. rewrite <- compile_routes. eapply find_route_in_c; eauto. Qed.
+  Lemma compile_routes : forall ops root, map cr_route (compile ops root) = routes_of_root ops root.
+  Proof. intros ops root. unfold compile. rewrite map_map. cbn. apply map_id. Qed.
+  Lemma find_route_in : forall ops root m p ps seen rt,
+    find_route (compile ops root) m p ps seen = FRoute rt -> In rt (reachable_routes ops).
+  Proof.
+    intros ops root m p ps seen rt H. apply find_route_in_c in H. rewrite compile_routes in H.
+    unfold routes_of_root in H. apply filter_In in H. exact (proj1 H).
+  Qed.
 
   Lemma ok_guarded : forall ops rt, assembly_ok ops = true -> In rt (reachable_routes ops) ->
     guarded (chain ops (rt_router rt)) = true.
@@ -248,25 +251,25 @@ Section CHAIN.
     rewrite forallb_forall in H. exact (H rt Hin).
   Qed.
 
-  Lemma dispatch_handler_inv : forall ops q, assembly_ok ops = true ->
-    In EvHandler (p_trace (dispatch ce login pass other h ops q)) -> verdict_of q = VPass.
+  Lemma dispatch_handler_inv : forall ops root q, assembly_ok ops = true ->
+    In EvHandler (p_trace (dispatch ce login pass other h ops root q)) -> verdict_of q = VPass.
   Proof.
-    intros ops q Hok. unfold dispatch, dispatch_c.
-    destruct (find_route (compile ops) (q_method q) (q_path q) (split_on "/"%char (q_path q)) false) as [rt| |] eqn:F; cbn; try contradiction.
+    intros ops root q Hok. unfold dispatch, dispatch_c.
+    destruct (find_route (compile ops root) (q_method q) (q_path q) (split_on "/"%char (q_path q)) false) as [rt| |] eqn:F; cbn; try contradiction.
     apply serve_handler_inv. apply guarded_has_auth. eapply ok_guarded; eauto. eapply find_route_in; eauto.
   Qed.
 
-  Lemma dispatch_reject : forall ops q, assembly_ok ops = true -> verdict_of q <> VPass ->
-    let p := dispatch ce login pass other h ops q in
+  Lemma dispatch_reject : forall ops root q, assembly_ok ops = true -> verdict_of q <> VPass ->
+    let p := dispatch ce login pass other h ops root q in
     ~ In EvHandler (p_trace p) /\ p_gzip p = false /\
     ((p_status p = verdict_status (verdict_of q) /\ exists pre, forallb transparent pre = true /\
          p_trace p = (map EvNext pre ++ [EvReject (verdict_status (verdict_of q))])%list)
      \/ ((p_status p = 404%N \/ p_status p = 405%N) /\ p_trace p = [])).
   Proof.
-    intros ops q Hok Hv p. split.
+    intros ops root q Hok Hv p. split.
     - intros Hr. apply Hv. eapply dispatch_handler_inv; eauto.
     - subst p. unfold dispatch, dispatch_c.
-      destruct (find_route (compile ops) (q_method q) (q_path q) (split_on "/"%char (q_path q)) false) as [rt| |] eqn:F; cbn [plain p_gzip p_status p_trace]; auto.
+      destruct (find_route (compile ops root) (q_method q) (q_path q) (split_on "/"%char (q_path q)) false) as [rt| |] eqn:F; cbn [plain p_gzip p_status p_trace]; auto.
       assert (Hg : guarded (chain ops (rt_router rt)) = true) by (eapply ok_guarded; eauto; eapply find_route_in; eauto).
       destruct (serve_reject _ q Hg Hv) as [Hs [Hz [_ Ht]]]. split; [exact Hz|]. left. split; [exact Hs|].
       exists (before_auth (chain ops (rt_router rt))). split; [|exact Ht].
@@ -351,8 +354,8 @@ Section ASSEMBLY.
   Variable ops : list rop.
   Hypothesis Hok : assembly_ok ops = true.
 
-  Lemma assembly_no_handler : forall q,
-    let p := dispatch true login pass other h ops q in
+  Lemma assembly_no_handler : forall root q,
+    let p := dispatch true login pass other h ops root q in
     (handler_ran p = true ->
        exists rest, q_auth q = "Basic " ++ rest /\ b64_decode_ok rest = true /\
                     b64_decode_prefix rest = login ++ ":" ++ pass) /\
@@ -362,15 +365,15 @@ Section ASSEMBLY.
        ((p_status p = 401 \/ p_status p = 400)%N -> exists pre, forallb transparent pre = true /\
           p_trace p = (map EvNext pre ++ [EvReject (p_status p)])%list)).
   Proof.
-    intros q p. split.
+    intros root q p. split.
     - intros Hr. apply handler_ran_In in Hr.
-      pose proof (dispatch_handler_inv true login pass other h ops q Hok Hr) as Hv.
+      pose proof (dispatch_handler_inv true login pass other h ops root q Hok Hr) as Hv.
       destruct (pass_inv true _ _ _ Hv) as [rest [Hc [Hd Ho]]].
       exists rest. split; [apply credentials_part_some; exact Hc|]. split; [apply Ho; reflexivity | exact Hd].
     - intros He.
       assert (Hv : basic_auth_gen true login pass (q_auth q) <> VPass).
       { intros Hv. apply pass_exact in Hv. congruence. }
-      destruct (dispatch_reject true login pass other h ops q Hok Hv) as [Hn [Hz Hs]]. fold p in Hn, Hz, Hs.
+      destruct (dispatch_reject true login pass other h ops root q Hok Hv) as [Hn [Hz Hs]]. fold p in Hn, Hz, Hs.
       split; [apply handler_ran_false; exact Hn|]. split; [exact Hz|].
       destruct Hs as [[Hs [pre [Hp Ht]]] | [Hs Ht]].
       + split.
@@ -381,14 +384,14 @@ Section ASSEMBLY.
   Qed.
 
   Hypothesis Hknown : assembly_known ops = true.
-  Lemma assembly_right_credentials : forall q rt, has_char ":"%char login = false ->
+  Lemma assembly_right_credentials : forall root q rt, has_char ":"%char login = false ->
     q_auth q = basic_header login pass ->
-    lookup ops (q_method q) (q_path q) = FRoute rt ->
-    let p := dispatch true login pass other h ops q in
+    lookup ops root (q_method q) (q_path q) = FRoute rt ->
+    let p := dispatch true login pass other h ops root q in
     handler_ran p = true /\ p_status p = h q /\
     p_trace p = (map EvNext (chain ops (rt_router rt)) ++ [EvHandler])%list.
   Proof.
-    intros q rt Hl Ha F p. subst p. unfold dispatch, dispatch_c. unfold lookup in F. rewrite F.
+    intros root q rt Hl Ha F p. subst p. unfold dispatch, dispatch_c. unfold lookup in F. rewrite F.
     assert (Hk : forallb known (chain ops (rt_router rt)) = true).
     { unfold assembly_known in Hknown. rewrite forallb_forall in Hknown. apply Hknown. eapply find_route_in; eauto. }
     assert (Hv : basic_auth_gen true login pass (q_auth q) = VPass) by (rewrite Ha; apply right_header_passes; exact Hl).
